@@ -240,6 +240,9 @@ pub fn analyze_s<M: Mask>(info: &Info<M>, cfg: &RunCfg, res: &RunRes, out: &mut 
                         for i in 0..n {
                             if !started.get(i) && !info.built_direct(i, rev).and_not(&ended).any() {
                                 v(out, 6, format!("call is idle (pending, no wake-up) but function {i} has all built-graph predecessors finished and was not started (event {k})"));
+                                if cfg.limit == Some(0) {
+                                    v(out, 10, format!("limit 0 means unbounded, but the call is idle while function {i}, whose predecessors have all finished, was not started (event {k})"));
+                                }
                             }
                         }
                     }
